@@ -113,6 +113,7 @@ typedef struct hx_txrec {
     int end_markers[2];
     int n_req_complete, n_res_complete, n_tx_complete;
     int rank[2];
+    int64_t rank_pos[2];       /* stream offset of the side when its rank was last raised        */
     int last_status;           /* response_status_number seen at the last RESPONSE_LINE          */
     int prog[2];               /* last sampled progress                                          */
     int cbs_after_complete;
@@ -221,6 +222,8 @@ enum {
     HX_SITE_RES_COMPLETE_EARLY_DATA_OTHER = 2,
     HX_SITE_DECOMP_RESTART = 3,
     HX_SITE_RES_LINE_AS_BODY = 4,
+    HX_SITE_REQ_FINALIZE_AS_BODY = 5,
+    HX_SITE_RES_FINALIZE_AS_BODY = 6,
     HX_SITE__MAX = 32
 };
 extern const char *const hx_site_names[];
